@@ -12,6 +12,8 @@ CONSTANTS Docs,        \* sequence of documents
           Langs,       \* sequence of LANG values ("" = unset)
           Part,       \* "all" | "clean_stdout" | "stdout": the part of the option space to emit
           Currents,    \* subset of {"given", "omit", "garbage"}: how --time-limited-current is passed
+          Odds,        \* sequence over {"", "both_lists", "json_clean", "missing_input", "bad_outdir"}: option combinations and
+                       \* failures outside every listed property ("" = none)
           ArgForms,    \* sequence over {"eq", "sep"}: option values as --opt=value / as separate arguments
           OmitAll      \* TRUE: all options with defaults are omitted (Docs must use the default spelling)
 
@@ -27,14 +29,18 @@ Next ==
   /\ ~done /\ done' = TRUE
   /\ \E d \in 1..Len(Docs), inp \in {"file", "stdin"}, outp \in {"stdout", "file", "same"},
         m \in Modes, via \in {"flags", "file", "both", "none"}, z \in 1..Len(Zones), lg \in 1..Len(Langs),
-        zm \in {0, 540, -480}, cur \in Currents, cnl \in BOOLEAN, af \in 1..Len(ArgForms) :
+        zm \in {0, 540, -480}, cur \in Currents, cnl \in BOOLEAN, af \in 1..Len(ArgForms), od \in 1..Len(Odds) :
        /\ (outp = "same" => inp = "file")
+       /\ (Odds[od] = "both_lists" => m[1] = "list")
+       /\ (Odds[od] = "json_clean" => (m[1] = "list" /\ m[2]))          \* emitted as mode clean with the JSON flag
+       /\ (Odds[od] = "missing_input" => (inp = "file" /\ outp # "same"))
+       /\ (Odds[od] = "bad_outdir" => outp = "file")
        /\ (cur # "given" => zm = 0)
        /\ (via \in {"flags", "none"} => cnl)          \* cnl: the target config file ends with a line break
        \* without the final line break a last line that is the empty name cannot be written down
        /\ (~cnl => (FileTargets # <<>> /\ FileTargets[Len(FileTargets)] # <<>>))
        /\ o' = [d |-> d, inp |-> inp, outp |-> outp, mode |-> m[1], json |-> m[2], via |-> via, tz |-> Zones[z],
-                lang |-> Langs[lg], zm |-> zm, cur |-> cur, cnl |-> cnl, af |-> ArgForms[af]]
+                lang |-> Langs[lg], zm |-> zm, cur |-> cur, cnl |-> cnl, af |-> ArgForms[af], odd |-> Odds[od]]
 
 InSlice == \/ Part = "all"
            \/ Part = "clean_stdout" /\ o.mode = "clean" /\ o.outp = "stdout" /\ o.via = "none" /\ o.inp = "file"
@@ -47,7 +53,7 @@ Effective ==
   ELSE IF o.via = "flags" THEN FlagTargets
   ELSE FileTargets \o FlagTargets
 
-LibOp == IF o.mode = "clean" THEN "clean"
+LibOp == IF o.mode = "clean" \/ o.odd = "json_clean" THEN "clean"
          ELSE IF o.mode = "list" THEN (IF o.json THEN "list_json" ELSE "list")
          ELSE (IF o.json THEN "list_all_json" ELSE "list_all")
 
@@ -56,7 +62,7 @@ EmitAll == (done /\ InSlice) =>
            ops |-> <<IF o.cur \in {"given", "naive"} THEN [op |-> "config", targets |-> Effective]
                      ELSE [op |-> "config", targets |-> Effective, now |-> "wall"],
                      [op |-> LibOp],
-                     [op |-> "cli", input |-> o.inp, output |-> o.outp, mode |-> o.mode, json |-> o.json,
+                     [op |-> "cli", input |-> o.inp, output |-> o.outp, mode |-> IF o.odd = "json_clean" THEN "clean" ELSE o.mode, json |-> o.json, odd |-> o.odd,
                       targets_via |-> o.via, current |-> o.cur, conf_final_newline |-> o.cnl, tz |-> o.tz, lang |-> o.lang, now_zone_min |-> o.zm,
                       file_targets |-> FileTargets, flag_targets |-> FlagTargets, argform |-> o.af,
                       omit |-> IF OmitAll THEN <<"ds", "de", "tl", "rm", "off">> ELSE <<>>]>>])
